@@ -156,6 +156,7 @@ type nodeWorld struct {
 	msgSeq int
 	hooks  *hookObs
 	race   *raceArm
+	lastObs observation // what the last publish produced (deliveries, forwards)
 
 	zeroAccept bool // the case contained a subscribe that registered nothing although it passed all checks
 }
@@ -695,6 +696,8 @@ type pubOpts struct {
 	relayed      bool
 	badIdLen     bool
 	big          bool
+	keyed        bool                 // the space has a read key: the frame carries a keyId (covered by the signature)
+	frame        *pubsubproto.Publish // a frame built elsewhere (signed by a real client key / forwarded by another node)
 }
 
 func (w *nodeWorld) publish(s *nstream, o pubOpts) {
@@ -718,9 +721,18 @@ func (w *nodeWorld) publish(s *nstream, o pubOpts) {
 		TimestampMilli: time.Now().UnixMilli(),
 		Relayed:        o.relayed,
 	}
+	if o.keyed {
+		p.KeyId = fmt.Sprintf("readkey-%d", w.msgSeq%3)
+	}
+	if o.frame != nil {
+		p = o.frame
+		msgId, payload = p.MsgId, p.Payload
+	}
+	w.lastObs = observation{}
 	w.push(s, &pubsubproto.PubSubMessage{Content: &pubsubproto.PubSubMessage_Publish{Publish: p}}, "publish")
 	op := fmt.Sprintf("npub %s %s %s %s %s r%s l%s b%s", s.peer, s.ident, tok(o.space), tok(o.topic), o.ident, b01(o.relayed), b01(!o.badIdLen), b01(o.big))
 	obs := w.finishOp(op)
+	w.lastObs = obs
 
 	// ---- the property, stated directly ----
 	topicReal := w.nm.real(o.topic)
@@ -765,8 +777,8 @@ func (w *nodeWorld) publish(s *nstream, o pubOpts) {
 	got := map[uint32]int{}
 	for _, d := range obs.deliveries {
 		got[d.sid]++
-		if !bytes.Equal(d.p.MsgId, msgId) || d.p.Topic != topicReal || d.p.SpaceId != o.space || !bytes.Equal(d.p.Payload, payload) {
-			w.violate("", fmt.Sprintf("stream %d received a different message than the one published", d.sid))
+		if diff := signedFieldsDiffer(d.p, p); diff != "" {
+			w.violate("", fmt.Sprintf("stream %d received a different message than the one published (%s): its signature cannot verify", d.sid, diff))
 		}
 	}
 	for sid, n := range got {
@@ -793,14 +805,39 @@ func (w *nodeWorld) publish(s *nstream, o pubOpts) {
 		if !f.Relayed {
 			w.violate("", "forwarded copy is not marked relayed (the next node would forward it again)")
 		}
-		if !bytes.Equal(f.MsgId, msgId) || f.Topic != topicReal {
-			w.violate("", "forwarded copy differs from the published message")
+		if diff := signedFieldsDiffer(f, p); diff != "" {
+			w.violate("", "forwarded copy differs from the published message ("+diff+"): subscribers behind the other responsible nodes cannot verify it")
 		}
 	}
 	w.r.Count(fmt.Sprintf("node.pub.delivered_%d", min(len(want), 3)))
 	if len(want) >= 2 {
 		w.r.Count("node.pub.fanout_multi")
 	}
+}
+
+// signedFieldsDiffer names the first field covered by the publisher's signature (sign.go: space,
+// topic, msgId, keyId, timestamp, payload; plus identity and the signature itself) in which a relayed
+// or fanned-out copy differs from the original frame.
+func signedFieldsDiffer(got, want *pubsubproto.Publish) string {
+	switch {
+	case got.SpaceId != want.SpaceId:
+		return "spaceId"
+	case got.Topic != want.Topic:
+		return "topic"
+	case !bytes.Equal(got.MsgId, want.MsgId):
+		return "msgId"
+	case got.KeyId != want.KeyId:
+		return "keyId"
+	case got.TimestampMilli != want.TimestampMilli:
+		return "timestamp"
+	case !bytes.Equal(got.Payload, want.Payload):
+		return "payload"
+	case !bytes.Equal(got.Identity, want.Identity):
+		return "identity"
+	case !bytes.Equal(got.Signature, want.Signature):
+		return "signature"
+	}
+	return ""
 }
 
 // closeStream ends the read side: readLoop returns, the pool removes the stream and runs the
